@@ -24,7 +24,8 @@ META = {
         "mutate in place); each index loop advances by exactly the number of "
         "components it consumed (every component is emitted once); the depth "
         "truncation acts on the standardised list, not before it; qq_depth "
-        "overrides min/max."),
+        "overrides min/max."
+        ' Also: the stability test of the standardisation loop spans all passes of an iteration (no late snapshot); conditional constant propagation decides, for all 16 given/omitted combinations, that a depth keyword reaches the parser as given; clean chains in any order are in aliquot_unpacker_regex; option forwarding (dead / swapped / default-mismatched parameters).'),
     'families': ['TBL', 'FIXPOINT', 'CONSUME', 'ORDER', 'FORWARD', 'DEADPARAM', 'SIB-DEFAULTS'],
 }
 
